@@ -211,3 +211,65 @@ func VerifC10Egdm(h *verifh.H) {
 	}
 	h.Observe("deleted", got.IsDeleted)
 }
+
+// VerifC10HttpTransform: a job whose transform is an HttpTransform talking to a
+// scripted remote. The source hands out two pages of one entity each; each of
+// the first three requests to the transform service is answered with the page
+// back (200) or with a 5xx/4xx failure, drawn independently. Each source
+// entity is passed to the transform exactly once per run: the service receives
+// one request per page handed out (a run that meets a failure ends there and
+// reports it), never the same page twice within a run; and what the service
+// returned reaches the sink in source order.
+func VerifC10HttpTransform(h *verifh.H) {
+	hub := server.VerifNewHub(h)
+	ents := vEntities(2)
+	src := &vSource{batches: [][]*server.Entity{{ents[0]}, {ents[1]}}, failAt: -1, oneShot: true}
+	sink := &vSink{failBatch: -1, failing: map[string]bool{}}
+	page := func(e *server.Entity) string {
+		return `[{"id":"` + e.ID + `","refs":{},"props":{"ns0:seen":"yes"}}]`
+	}
+	var script []string
+	firstFail := -1
+	for k := 0; k < 3; k++ {
+		switch h.Choice("answer", 3) {
+		case 0:
+			script = append(script, "OK")
+		case 1:
+			script = append(script, "!503 restarting")
+			if firstFail < 0 {
+				firstFail = k
+			}
+		case 2:
+			script = append(script, "!429 slow down")
+			if firstFail < 0 {
+				firstFail = k
+			}
+		}
+	}
+	// without a failure request k is page k; a run ends at its first failure, so answers after it are never asked for
+	for k := range script {
+		if script[k] == "OK" {
+			if k < 2 {
+				script[k] = page(ents[k])
+			} else {
+				script[k] = "[]"
+			}
+		}
+	}
+	url := h.Remote(script...)
+	tr := &HTTPTransform{URL: url, TimeOut: 1}
+	pl := &IncrementalPipeline{PipelineSpec{source: src, sink: sink, transform: tr, batchSize: 1}}
+	j := &job{id: "t-job", title: "t-job", pipeline: pl, runner: vRunner(hub, 1, 1)}
+	_, err := pl.sync(j, context.Background())
+	requests := len(h.RemoteLog())
+	pages := len(src.emitted)
+	h.Assert(requests == pages, "the transform service receives one request per page handed out by the source, never a page twice within a run :: requests="+itoa(requests)+" pages="+itoa(pages))
+	if firstFail >= 0 && firstFail < 2 {
+		h.Assert(err != nil, "a run whose transform failed reports the failure")
+		h.Assert(len(sink.delivered) == firstFail, "what was transformed before the failure reached the sink, nothing else :: delivered="+itoa(len(sink.delivered)))
+	} else {
+		h.Assert(err == nil, "run succeeds")
+		h.Assert(len(sink.delivered) == 2 && sink.delivered[0].ID == ents[0].ID && sink.delivered[1].ID == ents[1].ID, "every entity the transform returned reaches the sink, in source order")
+	}
+	h.Observe("requests", requests)
+}
